@@ -19,7 +19,11 @@ length, same distinctness).  Both renderings are parsed by the strict checker
   absent              a key / leaf of the rendered tree is not in the character
                       data (references resolved) of a structurally clean
                       rendering, where the options neither filter nor truncate
-  value-modified      to_json(value) (or its format) changed by rendering
+  value-modified      the deep description of the value (to_json; the symbolic
+                      fields where there is no JSON form) taken before the
+                      first rendering of a new object differs from the one
+                      taken after it; mechanism `render:<Control>.<field>`
+                      for a field of a library control, else `render:<subject>`
   render-raises       the library raised instead of producing a document
   script-breakout     same elements and attribute names, but the code of an
                       event-handler attribute (`on*`, references resolved,
@@ -36,7 +40,16 @@ for the arguments of a Label with its structural position: `@group-name`,
 `@group-value`, `@tab-label`, a Tooltip object given to a Label `@label`),
 `option:<name>` (the string-valued render options css_classes, title,
 key_color, summary_color), Html.escape@text / Html.escape@attr; `combination:<subject>` when no single
-kind reproduces it.  For a guilty kind the clause does not depend on the random
+kind reproduces it.  Keys with path syntax ('.', '[', ']', ']]>', '', ' ', digit
+strings; payload kind `path-key`) have the mechanism `key-with-path-syntax`, or
+`child_config@key-with-path-syntax` when the key also names the child in
+`child_config` and the rendering is clean without that option.  Containers
+bound to a schema (defaults, frozen specs) are rendered under `extra_flags` of
+the call and of single children (`child_config`); the presence check models
+hide_default_values / hide_frozen per child: `absent:default-value...`,
+`absent:frozen-field`, `absent:frozen-element` (list elements).  A control that
+cannot be rendered with benign texts is blamed by minimisation:
+`render-raises:<Control>.<argument>`.  For a guilty kind the clause does not depend on the random
 payload that happened to sit there: it is decided by two fixed probe payloads
 (`<zq17 zq17=1>`, inert inside a quoted attribute value, and `" zq17="1`, inert
 in a text position) put into every slot of that kind.  For `render-raises` on
@@ -105,12 +118,18 @@ RULE = ('case = one description (52 % nested Dict/List/tuple/Object/Ref/Diff/'
         'contextual value rendered by the tree view under a random option set '
         'drawn from all render arguments, through one of 5 entry points; nodes '
         'with their own view: pg.Ref (also to plain containers), pg.diff, '
-        'contextual attributes, 3 user HtmlTreeView.Extension classes; 24 % a '
+        'contextual attributes, 3 user HtmlTreeView.Extension classes; dicts / '
+        'lists bound to a schema with defaulted and frozen fields / elements; '
+        'keys with path syntax; extra_flags per call and per child; 24 % a '
         'control tree of Label/Badge/LabelGroup/Tooltip/TabControl/ProgressBar '
         'with payloads in every string-valued constructor argument (text, '
         'tooltip, link, target, id, css_classes, styles keys/values, names) and '
         'labels alone / as group name / group value / tab label / given as str, '
-        'plain or decorated; '
+        'plain or decorated; every int-valued / optional argument also with '
+        'legal values outside the usual range (selected negative or >= the '
+        'number of tabs, progress beyond the total, explicit None / empty '
+        'arguments, interactive=False), rendered directly or as a node of a '
+        'Dict / List rendered by the tree view; '
         '10 % a pg.Html.element/escape composition) with 1-25 payload slots; the '
         'hostile and the twin build are rendered under the same options and '
         'compared (plus one rendering per payload kind when they differ). '
@@ -154,7 +173,12 @@ ASSUMPTIONS = [
     'an exception raised by user code during a rendering (option callable, extension method, repr) may '
     'surface in any form or be contained by the library: nothing is claimed about that rendering, only '
     'about the renderings after it',
-    'dict keys contain no ".", "[" or "]" (such keys are refused at construction or re-interpreted as paths by `root_path + key`: path addressing, C10)',
+    'every str accepted as a key by pg.Dict / a plain dict / a dynamic field name is data, also when it reads like a path ("a.b", "x[0]", "]]>", "", "0"); '
+    'const keys of a schema contain no "." (refused by pg.typing); `child_config` addresses children by their str names only',
+    'a field equal to its default may be hidden under hide_default_values, a frozen field with a const key under hide_frozen (default on: the class '
+    'implies it, as in Dict.sym_jsonify); the flags in force for a child are those of the call overridden by the child_config entry of THAT child; '
+    'the elements of a list are implied by no schema and must be shown',
+    'ProgressBar(total=0) is refused at construction (outside the quantifier); a Tooltip is only rendered with a for_element',
     'presence is checked on the character data outside elements of class "tooltip", only for keys/leaves '
     'the options do not filter (no callable include/exclude, root-level key lists modelled), and only on '
     'renderings without structural findings; either repr(s) or s is accepted for a string leaf',
@@ -209,14 +233,41 @@ KEY_TEMPLATES = [t for t in TEMPLATES if t[2]]
 REPR_TEMPLATES = [t for t in TEMPLATES if '\n' not in t[1]]
 
 
-# Keys: no '.', '[' or ']' at all.  A bracket-balanced key such as 'a[b]c' is
-# accepted by pg.Dict, but every `root_path + key` (also in the tree view)
-# parses it as a path, so it is addressed and displayed as its last element --
-# path addressing (C10), not escaping.
+# Keys of the payload kinds `key` / `diff-key` / `root-name` contain no '.',
+# '[' or ']'; keys with path syntax are a payload kind of their own.
 assert all(not set('.[]') & set(t[1]) for t in KEY_TEMPLATES)
 
+# Payload kind `path-key`: dict keys (of pg.Dict, plain dicts, dynamic field
+# names, diff operands) that read like a path or a part of one -- '.', '[',
+# ']', the CDATA terminator ']]>' (named by the quantifier), the empty key, a
+# blank, strings of digits.  All of them are accepted as keys by pg.Dict; a key
+# is data, whatever it would mean if it were parsed as a path.  Templates
+# without '{t}' are the bare texts (single renderings only; one per dict).
+PATH_KEY_TEMPLATES = [
+    ('pk-dot', '{t}.b', True),
+    ('pk-dots', '{t}.b.c<zq17 zq17="1">', True),
+    ('pk-index', '{t}[0]', True),
+    ('pk-close', '{t}]', True),
+    ('pk-open', '[{t}', True),
+    ('pk-open2', '{t}[x', True),
+    ('pk-cdata', '{t}]]><zq17 zq17="1"><![CDATA[', True),
+    ('pk-bare-dot', 'a.b', True),
+    ('pk-bare-index', 'x[0]', True),
+    ('pk-bare-close', ']', True),
+    ('pk-bare-open', '[', True),
+    ('pk-bare-cdata', ']]>', True),
+    ('pk-bare-empty', '', True),
+    ('pk-bare-blank', ' ', True),
+    ('pk-bare-int', '0', True),
+    ('pk-bare-int2', '12', True),
+]
+PREFIXED_PATH_KEY_TEMPLATES = [t for t in PATH_KEY_TEMPLATES if '{t}' in t[1]]
+# Twins of the bare texts: distinct from each other and from every other key.
+BARE_TWINS = {'a.b': 'aqb', 'x[0]': 'xq0q', ']': 'j', '[': 'g', ']]>': 'jjq',
+              '': 'e', ' ': 'w', '0': 'o', '12': 'ot'}
 
-TPL = {tid: tpl for tid, tpl, _ in TEMPLATES}
+
+TPL = {tid: tpl for tid, tpl, _ in TEMPLATES + PATH_KEY_TEMPLATES}
 
 
 # ----------------------------------------------------------------------------
@@ -341,7 +392,11 @@ class Slots:
     if kind in self.probe:
       t = (self.probe[kind].replace('{t}', f'{self.prefix}p{self.textids[i]}x')
            + ' pad' * self.pads[i])
-    return t if kind in mode else M.html_twin(t)
+    if kind in mode:
+      return t
+    if kind == 'path-key' and t in BARE_TWINS:
+      return BARE_TWINS[t]
+    return M.html_twin(t)
 
   def kinds(self):
     return {k for k, _, _ in self.items}
@@ -378,11 +433,25 @@ class Gen:
     self.key_payloads = rng.random() < 0.4
     # Histories with failing renderings: more nodes with a view of their own.
     self.ext_bias = False
+    # Containers bound to a schema (defaults, frozen specs) were generated.
+    self.has_spec = False
 
-  def keyref(self, key_kind, siblings=()):
+  def keyref(self, key_kind, siblings=(), allow_path=True):
     r = self.rng.random()
     if self.key_payloads and r < 0.6:
-      k = ['slot', self.S.new(self.rng, key_kind, KEY_TEMPLATES)]
+      templates = KEY_TEMPLATES
+      if (allow_path and key_kind in ('key', 'diff-key')
+          and self.rng.random() < 0.35):
+        key_kind = 'path-key'
+        # The bare texts are not unique: not in histories (texts are looked
+        # up in update scripts), and once per dict.
+        tpl = self.rng.choice(PREFIXED_PATH_KEY_TEMPLATES if self.S.share_p
+                              else PATH_KEY_TEMPLATES)
+        if any(x[0][0] == 'slot' and self.S.items[x[0][1]][2] == tpl[1]
+               for x in siblings):
+          tpl = PREFIXED_PATH_KEY_TEMPLATES[0]
+        templates = [tpl]
+      k = ['slot', self.S.new(self.rng, key_kind, templates)]
       # Histories share texts between slots: no two keys of one dict with the
       # same text (the dict would silently keep one of them).
       tid = self.S.textids[k[1]]
@@ -413,6 +482,8 @@ class Gen:
     self.n += 1
     if depth >= 3 or self.n > 22 or rng.random() < (0.1 + 0.2 * depth):
       return self.leaf()
+    if key_kind != 'diff-key' and rng.random() < 0.08:
+      return self.specd(path, key_kind)
     r = rng.random()
     kids = rng.randint(0, 4) if depth else rng.randint(1, 5)
     if self.ext_bias and key_kind != 'diff-key' and rng.random() < 0.3:
@@ -469,6 +540,47 @@ class Gen:
     if r < 0.98:
       return self.diff(depth)
     return ['C', self.leaf()]
+
+  def specd(self, path, key_kind):
+    """A pg.Dict / pg.List bound to a schema, with leaves as children.
+
+    SD: const keys, each field plain / with the value as its default / frozen
+    to the value; SL: a list with an element spec (plain / default = the first
+    element / frozen to the first element); SN: a dict with a non-const key
+    spec (plain / default = the first value).
+    """
+    rng = self.rng
+    self.has_spec = True
+
+    def leaf(like=None):
+      if (like[0] == 's') if like else rng.random() < 0.5:
+        return ['s', self.S.new(rng, 'str-leaf')]
+      return ['i', next(self.uniq) * 7919]
+
+    kind = rng.choice(['SD', 'SD', 'SL', 'SL', 'SN'])
+    self.paths.append(path)
+    if kind == 'SD':
+      items = []
+      for _ in range(rng.randint(1, 3)):
+        # A const key of a schema may not contain '.'.
+        k = self.keyref(key_kind, items, allow_path=False)
+        items.append([k, leaf(), rng.choice(['any', 'default', 'default',
+                                             'frozen'])])
+      return ['SD', items]
+    how = rng.choice(['any', 'default', 'default', 'frozen'] if kind == 'SL'
+                     else ['any', 'default'])
+    first = leaf()
+    vals = [first]
+    for _ in range(rng.randint(0, 2)):
+      vals.append(first if how == 'frozen' or (how == 'default'
+                                               and rng.random() < 0.5)
+                  else leaf(first))
+    if kind == 'SL':
+      return ['SL', vals, how]
+    items = []
+    for v in vals:
+      items.append([self.keyref(key_kind, items), v])
+    return ['SN', items, how]
 
   def extension(self, depth, path):
     """A node of a user class that overrides parts of its tree view."""
@@ -540,6 +652,15 @@ def key_text(ref, S, mode):
   return ref[1]
 
 
+def _leaf_spec(leaf, how, value):
+  spec = pg.typing.Str() if leaf[0] == 's' else pg.typing.Int()
+  if how == 'default':
+    spec.set_default(value)
+  elif how == 'frozen':
+    spec.freeze(value)
+  return spec
+
+
 def build(d, S, mode):
   """Builds the value described by `d` with the kinds in `mode` hostile."""
   t = d[0]
@@ -559,6 +680,22 @@ def build(d, S, mode):
     return pg.List(out) if t == 'L' else out
   if t == 'T':
     return tuple(build(v, S, mode) for v in d[1])
+  if t == 'SD':
+    fields, vals = [], {}
+    for k, v, how in d[1]:
+      key = key_text(k, S, mode)
+      vals[key] = build(v, S, mode)
+      fields.append((key, _leaf_spec(v, how, vals[key])))
+    return pg.Dict(vals, value_spec=pg.typing.Dict(fields))
+  if t == 'SL':
+    vals = [build(v, S, mode) for v in d[1]]
+    return pg.List(vals, value_spec=pg.typing.List(
+        _leaf_spec(d[1][0], d[2], vals[0])))
+  if t == 'SN':
+    vals = {key_text(k, S, mode): build(v, S, mode) for k, v in d[1]}
+    return pg.Dict(vals, value_spec=pg.typing.Dict([(
+        pg.typing.StrKey(),
+        _leaf_spec(d[1][0][1], d[2], build(d[1][0][1], S, mode)))]))
   if t == 'Dyn':
     return pick_class('Dyn', mode)(
         **{key_text(k, S, mode): build(v, S, mode) for k, v in d[1]})
@@ -608,9 +745,64 @@ def key_shown(child, flags):
   return es is not False and (esf or child[0] != 's' or es is True)
 
 
-def expectations(d, S, mode, out, flags=(None, True)):
-  """Collects (what, acceptable texts) for keys and leaves that must be shown."""
+def _same_leaf(a, b, S):
+  """Do two leaf descriptions stand for equal values?  (Histories: two slots
+  may carry the same text.)"""
+  if a[0] != b[0]:
+    return False
+  return S.textids[a[1]] == S.textids[b[1]] if a[0] == 's' else a[1] == b[1]
+
+
+def _leaf_exp(v, S, mode, out, what=None):
+  if v[0] == 's':
+    s = S.text(v[1], mode)
+    out.append((what or 'str-leaf', [repr(s), s]))
+  else:
+    out.append((what or 'int-leaf', [str(v[1])]))
+
+
+def expectations(d, S, mode, out, flags=(None, True), eff=None):
+  """Collects (what, acceptable texts) for keys and leaves that must be shown.
+
+  `eff`: the `extra_flags` in force for this node (those of the call, with
+  those of the `child_config` entry of the root child it lies under); `tag`
+  in it marks nodes next to a root child that has flags of its own.  A field
+  equal to its default may be hidden by hide_default_values, a frozen field
+  (a const key of a schema: the class implies it) by hide_frozen, which is on
+  by default; the elements of a list are implied by no schema.
+  """
   t = d[0]
+  eff = eff or {}
+  if t in ('SD', 'SL', 'SN'):
+    hide_dflt = bool(eff.get('hide_default_values', False))
+    tag = eff.get('tag', '')
+    if t == 'SD':
+      entries = [(k, v, how) for k, v, how in d[1]]
+    elif t == 'SL':
+      entries = [(None, v, d[2] if _same_leaf(v, d[1][0], S) else 'any')
+                 for v in d[1]]
+    else:
+      entries = [(k, v, d[2] if _same_leaf(v, d[1][0][1], S) else 'any')
+                 for k, v in d[1]]
+    for k, v, how in entries:
+      what = None
+      if how != 'any' and hide_dflt:
+        continue
+      if how == 'frozen':
+        if t == 'SD':
+          if eff.get('hide_frozen', True):
+            continue
+          # (A frozen field holds its default value: next to a child with
+          # flags of its own it is the same case as a defaulted field.)
+          what = 'default-value' + tag if tag else 'frozen-field'
+        else:
+          what = 'frozen-element'
+      elif how == 'default':
+        what = 'default-value' + tag
+      if k is not None and key_shown(v, flags):
+        out.append((what or 'key', [key_text(k, S, mode)]))
+      _leaf_exp(v, S, mode, out, what)
+    return
   if t == 's':
     s = S.text(d[1], mode)
     out.append(('str-leaf', [repr(s), s]))
@@ -624,25 +816,25 @@ def expectations(d, S, mode, out, flags=(None, True)):
     for k, v in d[1]:
       if key_shown(v, flags):
         out.append(('key', [key_text(k, S, mode)]))
-      expectations(v, S, mode, out, flags)
+      expectations(v, S, mode, out, flags, eff)
   elif t in ('L', 'PL', 'T'):
     for v in d[1]:
-      expectations(v, S, mode, out, flags)
+      expectations(v, S, mode, out, flags, eff)
   elif t == 'O':
     for v in d[2:]:
-      expectations(v, S, mode, out, flags)
+      expectations(v, S, mode, out, flags, eff)
   elif t == 'R':
     # "Overrides the content to render the referenced value".
-    expectations(d[1], S, mode, out, flags)
+    expectations(d[1], S, mode, out, flags, eff)
   elif t == 'E':
     if d[1] == 'plain':
       for k, v in d[2]:
         if key_shown(v, flags):
           out.append(('key', [key_text(k, S, mode)]))
-        expectations(v, S, mode, out, flags)
+        expectations(v, S, mode, out, flags, eff)
     else:
       for v in (d[2:3] if d[1] == 'box' else d[2:]):
-        expectations(v, S, mode, out, flags)
+        expectations(v, S, mode, out, flags, eff)
   # X, C, W: custom views, no presence claim modelled.
 
 
@@ -742,10 +934,17 @@ def gen_opts(rng, S, desc, gen):
       o[k] = ['tuple'] + [
           x if x is None else ['slot', S.new(rng, 'option:' + k)]
           for x in o[k][1:]]
-  if rng.random() < p:
-    o['extra_flags'] = {k: rng.random() < 0.5 for k in
-                        rng.sample(['hide_frozen', 'hide_default_values',
-                                    'use_inferred'], rng.randint(1, 3))}
+  # Values with schema-bound containers: the flags that decide which of
+  # their entries are shown are drawn more often, for the call and per child.
+  pf = max(p, 0.5) if gen.has_spec else p
+
+  def flags():
+    return {k: rng.random() < 0.5 for k in
+            rng.sample(['hide_frozen', 'hide_default_values', 'use_inferred'],
+                       rng.randint(1, 3))}
+
+  if rng.random() < (pf if rng.random() < 0.6 else p):
+    o['extra_flags'] = flags()
   root_keys = ([k for k, _ in desc[1]] if desc[0] in ('D', 'PD', 'Dyn') else
                [['plain', 'x'], ['plain', 'y']] if desc[0] == 'O' else
                [['idx', j] for j in range(len(desc[1]))]
@@ -769,19 +968,29 @@ def gen_opts(rng, S, desc, gen):
           gen.paths, min(len(gen.paths), rng.randint(1, 3)))
     else:
       o['uncollapse'] = ['fn', 'uncollapse']
-  if root_keys and rng.random() < p:
-    cfg = {}
-    for name, choices in [('collapse_level', [None, 0, 2]),
-                          ('enable_summary_tooltip', [True, False]),
-                          ('key_style', ['summary', 'label']),
-                          ('max_summary_len_for_str', [0, 10, 200]),
-                          ('enable_key_tooltip', [True, False])]:
-      if rng.random() < 0.4:
-        cfg[name] = rng.choice(choices)
+  if root_keys and rng.random() < pf:
     # `child_config: Dict[str, Any]`: only str-keyed children are addressed.
-    target = rng.choice([k for k in root_keys if k[0] != 'idx']
-                        + [['plain', '__default__']])
-    o['child_config'] = [target, cfg]
+    # Every render argument can be overridden per child, extra_flags included.
+    targets = [k for k in root_keys if k[0] != 'idx'] + [['plain', '__default__']]
+    if S.share_p:
+      # Histories: a rendering that raises would end the history; the names
+      # of children with path syntax are left to the single renderings.
+      targets = [k for k in targets
+                 if not (k[0] == 'slot' and S.items[k[1]][0] == 'path-key')]
+    pairs = []
+    for target in rng.sample(targets, rng.choice([1, 1, min(2, len(targets))])):
+      cfg = {}
+      for name, choices in [('collapse_level', [None, 0, 2]),
+                            ('enable_summary_tooltip', [True, False]),
+                            ('key_style', ['summary', 'label']),
+                            ('max_summary_len_for_str', [0, 10, 200]),
+                            ('enable_key_tooltip', [True, False])]:
+        if rng.random() < 0.4:
+          cfg[name] = rng.choice(choices)
+      if rng.random() < (0.6 if gen.has_spec else 0.25):
+        cfg['extra_flags'] = flags()
+      pairs.append([target, cfg])
+    o['child_config'] = ['multi'] + pairs
   if rng.random() < p:
     o['name'] = rng.choice([['plain', 'nm'],
                             ['slot', S.new(rng, 'root-name', KEY_TEMPLATES)]])
@@ -800,6 +1009,11 @@ def gen_opts(rng, S, desc, gen):
 
 def _key_value(ref, S, mode):
   return ref[1] if ref[0] == 'idx' else key_text(ref, S, mode)
+
+
+def child_config_pairs(v):
+  """[(target key ref, config)] of a child_config description."""
+  return [tuple(x) for x in v[1:]] if v[0] == 'multi' else [(v[0], v[1])]
 
 
 def build_opts(o, S, mode):
@@ -825,7 +1039,8 @@ def build_opts(o, S, mode):
       kw[k] = [pg.KeyPath([_key_value(r, S, mode) for r in path])
                for path in v[1:]]
     elif k == 'child_config':
-      kw[k] = {_key_value(v[0], S, mode): dict(v[1])}
+      kw[k] = {_key_value(t, S, mode): copy.deepcopy(cfg)
+               for t, cfg in child_config_pairs(v)}
     elif k == 'name':
       kw[k] = key_text(v, S, mode)
     elif k == 'root_path':
@@ -944,6 +1159,8 @@ def gen_label(rng, S, cls=None, pos=''):
       d.setdefault(f, None)     # `Optional[...] = None` given explicitly
   if rng.random() < 0.25:
     d['interactive'] = True
+  elif rng.random() < 0.05:
+    d['interactive'] = False
   return [cls or rng.choice(['Label', 'Label', 'Badge']), d]
 
 
@@ -1016,6 +1233,10 @@ def gen_control(rng, S, depth=0):
     if tabs or rng.random() < 0.5:
       d['selected'] = gen_selected(rng, len(tabs))
     d['tab_position'] = rng.choice(['top', 'left'])
+    if rng.random() < 0.1:
+      # `interactive` is a field of every control (TabControl and ProgressBar
+      # default to True).
+      d['interactive'] = rng.random() < 0.5
     return ['TabControl', d]
   d = _common(rng, S, 'ProgressBar') if S.config_hostile else {}
   d['subprogresses'] = []
@@ -1030,6 +1251,8 @@ def gen_control(rng, S, depth=0):
     d['subprogresses'].append(sp)
   # total=0 is refused at construction (ZeroDivisionError / `assert total > 0`).
   d['total'] = rng.choice([None, None, 10, 20, 1, 3])
+  if rng.random() < 0.1:
+    d['interactive'] = rng.random() < 0.5
   return ['ProgressBar', d]
 
 
@@ -1078,8 +1301,10 @@ def build_tab(t, S, mode):
     # pg.Html.write() *calls* a callable (documented writable type), so a
     # functor object (also behind a pg.Ref, which attribute access
     # dereferences) is not a tab content that would be rendered.
+    # A container bound to a schema of its own is refused by the field
+    # `content` at construction.
     if (not isinstance(content, pg.Symbolic) or callable(content)
-        or isinstance(content, pg.Ref)):
+        or isinstance(content, pg.Ref) or c[1][0] in ('SD', 'SL', 'SN')):
       content = pg.Dict(v=content)
   elif c[0] == 'control':
     content = build_control(c[1], S, mode)
@@ -1318,7 +1543,7 @@ class Subject:
     raise NotImplementedError
 
   def mechanism(self, kind):
-    return kind
+    return 'key-with-path-syntax' if kind == 'path-key' else kind
 
   def variants(self, kind):
     return []
@@ -1508,6 +1733,7 @@ class TreeSubject(Subject):
   def __init__(self, ctx, S, desc, opts, class_kinds):
     super().__init__(ctx, S)
     self.desc, self.opts, self.class_kinds = desc, opts, class_kinds
+    self._path_mech = None
 
   def kinds(self):
     return self.S.kinds() | self.class_kinds
@@ -1515,6 +1741,48 @@ class TreeSubject(Subject):
   def variants(self, kind):
     # Keys take two routes through the tree view: summary name / label cell.
     return ['summary', 'label'] if kind == 'key' else []
+
+  def mechanism(self, kind):
+    """A key with path syntax that is also the name of a child in
+    `child_config` (documented: "the key is the name of the child node"): the
+    option is blamed if the rendering is clean without it."""
+    if kind != 'path-key':
+      return kind
+    if self._path_mech is None:
+      S, o = self.S, self.opts
+      self._path_mech = 'key-with-path-syntax'
+      if 'child_config' in o and any(
+          t[0] == 'slot' and S.items[t[1]][0] == 'path-key'
+          for t, _ in child_config_pairs(o['child_config'])):
+        self.opts = {k: v for k, v in o.items() if k != 'child_config'}
+        if 'scoped' in o:
+          self.opts['scoped'] = [x for x in o['scoped'] if x != 'child_config']
+        try:
+          if self._clean(kind):
+            self._path_mech = 'child_config@key-with-path-syntax'
+        finally:
+          self.opts = o
+    return self._path_mech
+
+  def _clean(self, kind):
+    """No finding with only `kind` hostile, under the current options."""
+    self.ctx.counters['option_minimisation_renders'] += 2
+    try:
+      t_text, t_exp, _ = self.render(frozenset())
+      h_text, h_exp, _ = self.render(frozenset([kind]))
+    except Exception as e:  # pylint: disable=broad-except
+      if _lib_raised(e):
+        return False
+      raise
+    rt, rh = HC.check(t_text), HC.check(h_text)
+    if judge(rh, rt) is not None:
+      return False
+
+    def missing(r, exp):
+      hay = r.text(exclude_classes=self.presence_excludes)
+      return {j for j, (_, acc) in enumerate(exp)
+              if not any(a in hay for a in acc)}
+    return not missing(rh, h_exp) - missing(rt, t_exp)
 
   def case(self):
     return {'value': self.desc, 'options': self.opts}
@@ -1572,26 +1840,43 @@ class TreeSubject(Subject):
     if f is not None:
       inc, exc = f
       d = self.desc
+      root_eff = dict(o.get('extra_flags', {}))
+      cc = child_config_pairs(o['child_config']) if 'child_config' in o else []
 
       def shown(ref):
         return (inc is None or ref in inc) and ref not in exc
+
+      def eff(ref):
+        """The extra_flags in force below the root child `ref`: "the
+        child-config ... override[s] the default configs for the child node"
+        (that child, not its siblings)."""
+        own = [j for j, (t, _) in enumerate(cc) if t == ref]
+        own = own or [j for j, (t, _) in enumerate(cc)
+                      if t == ['plain', '__default__']]
+        e = dict(root_eff)
+        for j in own[:1]:
+          e.update(cc[j][1].get('extra_flags', {}))
+        if any('extra_flags' in cfg for j, (_, cfg) in enumerate(cc)
+               if j not in own[:1]):
+          e['tag'] = '@child_config-sibling'
+        return e
 
       if d[0] in ('D', 'PD', 'Dyn'):
         for k, v in d[1]:
           if shown(k):
             if key_shown(v, flags):
               exp.append(('key', [key_text(k, S, mode)]))
-            expectations(v, S, mode, exp, flags)
+            expectations(v, S, mode, exp, flags, eff(k))
       elif d[0] in ('L', 'PL'):
         for j, v in enumerate(d[1]):
           if shown(['idx', j]):
-            expectations(v, S, mode, exp, flags)
+            expectations(v, S, mode, exp, flags, eff(['idx', j]))
       elif d[0] == 'O':
         for nm, v in zip('xy', d[2:]):
           if shown(['plain', nm]):
-            expectations(v, S, mode, exp, flags)
+            expectations(v, S, mode, exp, flags, eff(['plain', nm]))
       else:
-        expectations(d, S, mode, exp, flags)
+        expectations(d, S, mode, exp, flags, root_eff)
       if ('name' in o and key_shown(d, flags)
           and not (o['entry'] == 'repr_html'
                    and isinstance(value, pg.Symbolic))):
@@ -1615,6 +1900,49 @@ class ControlSubject(Subject):
 
   def case(self):
     return {'control': self.desc, 'how': self.how}
+
+  def blame_options(self, ctx):
+    """Benign build raises: the innermost control that cannot be rendered on
+    its own, and the constructor argument without which it can."""
+    S = self.S
+
+    def raises(d):
+      ctx.counters['control_minimisation_renders'] += 1
+      try:
+        build_control(d, S, frozenset()).to_html_str()
+        return False
+      except Exception as e:  # pylint: disable=broad-except
+        if _lib_raised(e):
+          return True
+        raise
+
+    def inner(d):
+      name, a = d
+      if name == 'str':
+        return None
+      subs = list(a.get('labels', []))
+      if name == 'LabelGroup' and a.get('name') is not None:
+        subs.append(a['name'])
+      # (The Tooltip object of a label gets its `for_element` from the label:
+      # it cannot be rendered on its own.)
+      for t in a.get('tabs', []):
+        subs.append(t['label'])
+        if t['content'][0] == 'control':
+          subs.append(t['content'][1])
+      for x in subs:
+        r = inner(x)
+        if r:
+          return r
+      if not raises(d):
+        return None
+      for arg in ('interactive', 'selected', 'tab_position', 'total', 'id',
+                  'css_classes', 'styles', 'link', 'target', 'tooltip'):
+        if arg in a and not raises([name, {k: v for k, v in a.items()
+                                           if k != arg}]):
+          return f'{name}.{arg}'
+      return name
+
+    return inner(self.desc) or 'render:' + self.name
 
   def render(self, mode, variant=None, ctrl=None):
     if ctrl is None:
@@ -1802,7 +2130,7 @@ def force_interactive(d):
   (TabControl and ProgressBar always are); a non-interactive control refuses
   updates by contract."""
   name, a = d
-  if name in ('Label', 'Badge', 'Tooltip', 'LabelGroup'):
+  if name in ('Label', 'Badge', 'Tooltip', 'LabelGroup') or 'interactive' in a:
     a['interactive'] = True
   if name == 'LabelGroup' and a.get('name') is not None:
     force_interactive(a['name'])
